@@ -283,7 +283,7 @@ func cmdCheck(args []string) int {
 	cov.OutOfScope = spec.OutOfScope
 	cov.Rule = "one evaluation = one solver-decided assertion obligation (negated assertion under the path condition); a case is one complete feasible path of a harness through the real SSA; non-trivial = the path carries at least one solver-decided branch or scheduler decision and reaches an assertion"
 	cov.CheckerCmd = fmt.Sprintf("./check %s %s", id, tier)
-	cov.TrustedBase = []string{"go/ssa (x/tools v0.29.0) lowering of /repo's current source", "symgo interpreter semantics (validated per run against the native build on sampled path models)", "z3 4.8.12 verdicts (QF_BV)", "models/stubs listed under stubs"}
+	cov.TrustedBase = []string{"go/ssa (x/tools v0.29.0) lowering of /repo's current source", "symgo interpreter semantics (validated per run against the native build on sampled path models)", "z3 4.8.12 verdicts (QF_BV); queries z3 answers unknown are re-decided by cvc5 1.0 --solve-bv-as-int=sum (counts reported)", "models/stubs listed under stubs"}
 
 	var groups []Group
 	for _, g := range spec.Groups {
@@ -424,6 +424,9 @@ func cmdCheck(args []string) int {
 		for s := range ex.stubs {
 			stubs[s] = true
 		}
+		cov.FallbackSat += ex.fbSat
+		cov.FallbackUnsat += ex.fbUnsat
+		cov.FallbackUnknown += ex.fbUnknown
 		for _, e := range ex.solverEr {
 			inconclusive = append(inconclusive, "solver error: "+e)
 		}
@@ -576,6 +579,9 @@ type Coverage struct {
 	Paths              int              `json:"paths"`
 	Queries            int              `json:"solver_queries"`
 	SolverTimeS        float64          `json:"solver_time_s"`
+	FallbackSat        int              `json:"fallback_cvc5_bv_as_int_sat"`
+	FallbackUnsat      int              `json:"fallback_cvc5_bv_as_int_unsat"`
+	FallbackUnknown    int              `json:"fallback_cvc5_bv_as_int_unknown"`
 	LoadS              float64          `json:"load_and_ssa_build_s"`
 	FunctionsEncoded   int              `json:"functions_encoded"`
 	FunctionsSample    []string         `json:"functions_encoded_repo"`
